@@ -7,5 +7,8 @@ go build -o .build/instr ./instr || exit 1
 .build/instr -repo /repo -out .build/ov-setup -sched || exit 1
 go build -overlay .build/ov-setup/overlay.json -tags verif -o .build/vsched.warm ./cmd/vsched || exit 1
 go build -overlay .build/ov-setup/overlay.json -tags verif -o .build/mc.warm ./cmd/mc || exit 1
+go build -overlay .build/ov-setup/overlay.json -tags verif -o .build/n.warm ./cmd/e1native || exit 1
+go build -race -overlay .build/ov-setup/overlay.json -tags verif -o .build/nr.warm ./cmd/e1native || exit 1
+rm -rf .build/n.warm .build/nr.warm
 rm -rf .build/ov-setup .build/vsched.warm .build/mc.warm
 echo setup ok
